@@ -111,7 +111,12 @@ func (w *world) roundTrip(raw []byte, method string) (int, http.Header, []byte) 
 	defer conn.Close()
 	conn.SetDeadline(time.Now().Add(40 * time.Second))
 	go func() { conn.Write(raw) }()
-	resp, err := http.ReadResponse(bufio.NewReader(conn), &http.Request{Method: method})
+	br := bufio.NewReader(conn)
+	resp, err := http.ReadResponse(br, &http.Request{Method: method})
+	for err == nil && resp.StatusCode >= 100 && resp.StatusCode < 200 {
+		// interim response (100 Continue): the final one follows
+		resp, err = http.ReadResponse(br, &http.Request{Method: method})
+	}
 	if err != nil {
 		return 0, nil, nil
 	}
@@ -566,6 +571,9 @@ func genSpec(r *c.Rng, tier string) *spec {
 			s.CLText = "0" + strconv.Itoa(len(s.Body))
 		}
 	}
+	if s.Mode == "sized" && len(s.Body) > 0 && r.Chance(0.04) {
+		s.Headers = append(s.Headers, hdr{"Expect", "100-continue"})
+	}
 	if s.Method == "HEAD" && s.Mode == "chunked" {
 		s.Mode, s.Body = "none", nil
 	}
@@ -631,6 +639,8 @@ func corpus(r *c.Rng, tier string) []*spec {
 	s.Mode, s.Body = "chunked", []byte{}
 	s = add(baseSpec("chunked body on GET", "GET", "/bcg"))
 	s.Mode, s.Body, s.Chunks = "chunked", []byte("q"), 1
+	s = add(baseSpec("Expect: 100-continue", "POST", "/exp", hdr{"Expect", "100-continue"}))
+	s.Mode, s.Body = "sized", []byte("expected body")
 	nLarge := 1
 	if tier == "thorough" {
 		nLarge = 4
